@@ -1,6 +1,7 @@
 """A fake of the SEARCH side of the Elasticsearch client that esrally.metrics.EsMetricsStore talks to (query leg of C08).
 
-The index content is a list of metrics documents (as a real metrics store produced them).  search(index, body)
+The index content is a list of metrics documents (as a real metrics store produced them); documents written through bulk_index are
+searchable after the next refresh() only.  search(index, body)
   (a) records every request body and
   (b) answers by EVALUATING the request against the documents: the term filters of query.bool.filter select the documents
       (dotted field paths, a document without the field does not match), `sort` and `size` shape the hits, and the aggregations
@@ -33,16 +34,36 @@ def percentile(sorted_values, p):
 
 
 class FakeSearchEs:
+    """docs: searchable documents.  Documents written with bulk_index become searchable with the next refresh of the index (what
+    Elasticsearch guarantees without waiting for the periodic refresh; the fake never refreshes by itself)."""
+
     def __init__(self, docs):
         self.docs = list(docs)
+        self.pending = []
+        self.indices = set()
         self.bodies = []
+        self.refreshes = 0
 
-    # what EsMetricsStore.open(create=False) / flush need
+    # what EsMetricsStore.open() / flush need
     def exists(self, index):
+        return index in self.indices
+
+    def create_index(self, index):
+        self.indices.add(index)
+
+    def template_exists(self, name):
         return False
 
-    def refresh(self, index):
+    def put_template(self, name, template):
         pass
+
+    def bulk_index(self, index, items):
+        self.pending.extend(items)
+
+    def refresh(self, index):
+        self.refreshes += 1
+        self.docs.extend(self.pending)
+        del self.pending[:]
 
     def search(self, index, body):
         self.bodies.append(body)
